@@ -463,4 +463,82 @@ mutual
       | _, _ => none
 end
 
+
+/-! ### the NBT form of a component (what `WriteTo` must produce) -/
+
+def optS (k s : Bytes) : List (Bytes × NBT) := if s = [] then [] else [(k, .string s)]
+def optB (k : Bytes) (b : Bool) : List (Bytes × NBT) := if b then [(k, .byte 1)] else []
+
+def clickForm : Option Click → List (Bytes × NBT)
+  | none => []
+  | some c => [(kClickEvent, .compound [(kAction, .string c.action), (kValue, .string c.value)])]
+
+def isStrArg : Msg ⊕ Bytes → Bool
+  | .inr _ => true
+  | .inl _ => false
+
+/-- the elements of an all-string argument list -/
+def strForms : List (Msg ⊕ Bytes) → List NBT
+  | [] => []
+  | .inr s :: r => .string s :: strForms r
+  | .inl _ :: r => strForms r
+
+mutual
+  /-- The compound a component is written as: a key for every non-empty field under its protocol name, strings as
+  TAG_String, set flags as TAG_Byte 1, events as compounds, arguments as a list of strings (when all are plain
+  strings) or of components (a plain string among components as the text component it stands for), extras as a
+  list of components. `text` is always there unless a translation key is (then only when non-empty). Hover
+  `contents` are not covered (absent). -/
+  def nbtForm : Msg → NBT
+    | ⟨text, bold, italic, underlined, strikethrough, obfuscated, font, color, insertion, click, hover, translate, args, extra⟩ =>
+      .compound (
+        (if translate ≠ [] then optS kText text else [(kText, .string text)])
+        ++ optB kBold bold ++ optB kItalic italic ++ optB kUnderlined underlined
+        ++ optB kStrikethrough strikethrough ++ optB kObfuscated obfuscated
+        ++ optS kFont font ++ optS kColor color ++ optS kInsertion insertion
+        ++ clickForm click ++ hoverForm hover ++ optS kTranslate translate ++ withForm args ++ extraForm extra)
+  def hoverForm : Option (Bytes × JSON × Msg) → List (Bytes × NBT)
+    | none => []
+    | some (a, _, v) => [(kHoverEvent, .compound [(kAction, .string a), (kValue, nbtForm v)])]
+  def withForm : List (Msg ⊕ Bytes) → List (Bytes × NBT)
+    | [] => []
+    | a :: as =>
+      [(kWith, if (a :: as).all isStrArg then .list NBT.tagString (strForms (a :: as))
+               else .list NBT.tagCompound (argForms (a :: as)))]
+  def extraForm : List Msg → List (Bytes × NBT)
+    | [] => []
+    | x :: xs => [(kExtra, .list NBT.tagCompound (formList (x :: xs)))]
+  def argForms : List (Msg ⊕ Bytes) → List NBT
+    | [] => []
+    | .inl m :: r => nbtForm m :: argForms r
+    | .inr s :: r => .compound [(kText, .string s)] :: argForms r
+  def formList : List Msg → List NBT
+    | [] => []
+    | m :: r => nbtForm m :: formList r
+end
+
+def shortStr (s : Bytes) : Prop := s.length < 32768
+
+mutual
+  /-- the components the NBT form can carry (and the theorems cover): strings below 32768 bytes, lists below 2^31
+  elements, no hover contents -/
+  def NbtOK : Msg → Prop
+    | ⟨text, _, _, _, _, _, font, color, insertion, click, hover, translate, args, extra⟩ =>
+      shortStr text ∧ shortStr font ∧ shortStr color ∧ shortStr insertion ∧ shortStr translate
+      ∧ (match click with
+         | none => True
+         | some c => shortStr c.action ∧ shortStr c.value)
+      ∧ (match hover with
+         | none => True
+         | some (a, c, v) => shortStr a ∧ c = .null ∧ NbtOK v)
+      ∧ args.length < 2 ^ 31 ∧ NbtOKArgs args ∧ extra.length < 2 ^ 31 ∧ NbtOKList extra
+  def NbtOKArgs : List (Msg ⊕ Bytes) → Prop
+    | [] => True
+    | .inl m :: r => NbtOK m ∧ NbtOKArgs r
+    | .inr s :: r => shortStr s ∧ NbtOKArgs r
+  def NbtOKList : List Msg → Prop
+    | [] => True
+    | m :: r => NbtOK m ∧ NbtOKList r
+end
+
 end GoMC.Spec
